@@ -14,7 +14,9 @@ RULE = ("generated CML documents of the Avogadro flavour written as REAL XML fil
         "with repeated bonds; coordinates of any sign and magnitude (0, ±tiny, ±huge, dyadic, random) written with repr; "
         "layout variations (XML declaration, extra attributes, attribute order, wrapping <cml> element, indentation). "
         "Each file is loaded by Atoms.load(path), Atoms.load(pathlib.Path), Atoms.load(open file, filetype='cml') and "
-        "Atoms.load_cml(path); a separate malformed stream has unknown references / unknown elements / no atoms / "
+        "Atoms.load_cml(path); a RELOAD stream writes consecutive different documents to ONE reused path and loads it again "
+        "(str and pathlib.Path), every other time after modifying the previously returned Atoms in place (positions += 1), "
+        "and compares each load with the document and with the open-file load; a separate malformed stream has unknown references / unknown elements / no atoms / "
         "repeated ids. Non-trivial = distinct well-formed document that has no bond at all, or has a bond one of "
         "whose references is not the id a<position+1> of the atom it names.")
 
@@ -184,13 +186,44 @@ def real_loads(doc, tmpdir, name):
     return res
 
 
+def real_reload(doc, path, mutate):
+    """the document is written to `path` — a path that may have been loaded BEFORE with another document — and loaded
+    by str path; optionally the returned object is then modified in place (positions += 1, as a caller that moves the
+    molecule would); then the same path is loaded again by str, by pathlib.Path, by load_cml and through an open file.
+    Every load has to reflect the document as it is in the file now."""
+    import numpy as np
+    from mofun import Atoms
+    with open(path, "w", encoding="utf-8") as f:
+        f.write(xml_of(doc))
+    res = {}
+    kept = []
+
+    def first():
+        a = Atoms.load(path)
+        kept.append(a)
+        return a
+    res["path"] = _res(first)
+    if mutate and kept:
+        with core.quiet():
+            kept[0].positions += np.array([1.0, 1.0, 1.0])
+    res["path-again"] = _res(lambda: Atoms.load(path))
+    res["pathlib"] = _res(lambda: Atoms.load(pathlib.Path(path)))
+    res["load_cml"] = _res(lambda: Atoms.load_cml(path))
+
+    def by_file():
+        with open(path, "r", encoding="utf-8") as fh:
+            return Atoms.load(fh, filetype="cml")
+    res["file"] = _res(by_file)
+    return res
+
+
 # ------------------------------------------------------------------ the property, stated directly on the document
 
 def oracle(doc, res):
     """doc: what was written (atoms in document order, bond_idx = the POSITIONS each bond entry was generated for)."""
     r = res["path"]
-    for k in ("pathlib", "file", "load_cml"):
-        if res[k] != r:
+    for k in res:
+        if k != "path" and res[k] != r:
             return "loading by %s differs from loading by path: %s" % (k, core.same(res[k], r) or "exception kinds differ")
     if "ok" not in r:
         return "a well-formed molecule (%d atoms, %d bonds) failed to load: %s" % (len(doc["atoms"]), len(doc["bonds"]), r.get("err"))
@@ -269,6 +302,29 @@ def run(ctx, oracle_only=False):
                          required="one atom per entry in order with its element and coordinates; bond k joins the atoms named by its references; same result by path and by file")
             ops.append(wire(doc))
             impls.append({k2: v for k2, v in res["path"].items() if k2 in ("ok", "err")})
+        # one path REUSED for consecutive different documents; every other time the first result is modified in place
+        # before the path is loaded again
+        reused = os.path.join(tmp, "reused.cml")
+        prev = None
+        for k in range(ctx.n(60, 600)):
+            doc = rand_doc(rng, n=rng.choice([1, 1, 2, 3, 5, 8, 13, 21]))
+            mutate = (k % 2 == 1)
+            res = real_reload(doc, reused, mutate)
+            inp = dict(wire(doc), bonds=doc["bonds"], bond_idx=doc["bond_idx"], layout=doc["layout"], scheme=doc["scheme"],
+                       reload={"mutate": mutate, "previous": None if prev is None else
+                               {"atoms": prev["atoms"], "bonds": prev["bonds"], "layout": prev["layout"]}})
+            ctx.case(inp, nontrivial=True)
+            ctx.count("reload:" + ("mutated-first-result" if mutate else "rewritten-path"))
+            bad = oracle(doc, res)
+            if bad:
+                ctx.fail(bad, inp, observed={k2: (v if "err" in v else "loaded") for k2, v in res.items()},
+                         required="every load of a path reflects the document that is in the file at that moment, whatever was "
+                                  "loaded from that path before and whatever was done to the earlier result; same result by path and by file")
+            ops.append(wire(doc))
+            impls.append({k2: v for k2, v in res["path"].items() if k2 in ("ok", "err")})
+            prev = doc
+        if os.path.exists(reused):
+            os.remove(reused)
         for k in range(ctx.n(60, 600)):
             kind, doc = malformed(rng)
             res = real_loads(doc, tmp, "m%d" % k)
@@ -304,7 +360,15 @@ def replay(ctx, rec):
     inp = rec["input"]
     doc = {"atoms": inp["atoms"], "bonds": inp["bonds"], "bond_idx": inp.get("bond_idx"), "layout": inp.get("layout", {})}
     with tempfile.TemporaryDirectory(prefix="verif_c16_") as tmp:
-        res = real_loads(doc, tmp, "replay")
+        if inp.get("reload"):
+            path = os.path.join(tmp, "reused.cml")
+            pv = inp["reload"].get("previous")
+            if pv:
+                real_reload(dict(pv, bond_idx=[]), path, False)
+            res = real_reload(doc, path, inp["reload"]["mutate"])
+            os.remove(path)
+        else:
+            res = real_loads(doc, tmp, "replay")
     if inp.get("malformed") or doc["bond_idx"] is None:
         return all(res[w] == res["path"] for w in ("pathlib", "file", "load_cml"))
     return oracle(doc, res) is None
